@@ -6,6 +6,7 @@ export GOFLAGS=-mod=mod GOPROXY=off GOSUMDB=off GOTOOLCHAIN=local
 id=$1; D=/verif/seeded/$id
 PKGDIR=$(python3 -c "import json;print(json.load(open('$D/meta.json')).get('demo_pkg_dir','.'))")
 TNAME=$(python3 -c "import json;print(json.load(open('$D/meta.json')).get('demo_test_name',''))")
+RACE=$(python3 -c "import json;m=json.load(open('$D/meta.json'));print('-race' if '-race' in json.dumps(m) else '')")
 W=/tmp/seedchk-$id
 git -C /repo worktree remove --force $W >/dev/null 2>&1
 git -C /repo worktree add -q --detach $W HEAD || exit 2
@@ -16,9 +17,9 @@ if [ $applies = yes ]; then
   git apply $D/patch.diff
   if go build ./... >/dev/null 2>&1 && go test -vet=off -count=1 ./... >/tmp/seed-suite-$id.log 2>&1; then suite=yes; fi
   cp $D/demo_test.go $W/$PKGDIR/zz_seed_demo_test.go
-  if ! (cd $W/$PKGDIR && go test -vet=off -count=1 -run "^${TNAME}\$" . >/tmp/seed-demo1-$id.log 2>&1); then demofail=yes; fi
+  if ! (cd $W/$PKGDIR && go test $RACE -vet=off -count=1 -run "^${TNAME}\$" . >/tmp/seed-demo1-$id.log 2>&1); then demofail=yes; fi
   git checkout -q -- .
-  if (cd $W/$PKGDIR && go test -vet=off -count=1 -run "^${TNAME}\$" . >/tmp/seed-demo2-$id.log 2>&1); then demopass=yes; fi
+  if (cd $W/$PKGDIR && go test $RACE -vet=off -count=1 -run "^${TNAME}\$" . >/tmp/seed-demo2-$id.log 2>&1); then demopass=yes; fi
 fi
 cd /; git -C /repo worktree remove --force $W; rm -f /tmp/seed-*-$id.log
 python3 - <<PY
